@@ -3206,6 +3206,18 @@ void Analyser::AnalyserImpl::analyseModel(const ModelPtr &model)
     //       variables that are computed from it, whatever the order of the
     //       equations, so we repeat the process until nothing changes anymore.
 
+    // Note: a variable that is computed using an NLA system is not available
+    //       before that NLA system has been solved, so an equation that uses it
+    //       cannot be one that computes a variable-based constant, even if the
+    //       NLA system only relies on constants.
+
+    auto isComputedUsingNlaSystem = [&](const AnalyserInternalVariablePtr &variable) {
+        return std::any_of(mInternalEquations.begin(), mInternalEquations.end(), [&](const auto &nlaEquation) {
+            return (nlaEquation->mType == AnalyserInternalEquation::Type::NLA)
+                   && (std::find(nlaEquation->mUnknownVariables.begin(), nlaEquation->mUnknownVariables.end(), variable) != nlaEquation->mUnknownVariables.end());
+        });
+    };
+
     bool requalified;
 
     do {
@@ -3247,9 +3259,10 @@ void Analyser::AnalyserImpl::analyseModel(const ModelPtr &model)
 
             for (const auto &variable : internalEquation->mAllVariables) {
                 if ((variable != unknownVariable)
-                    && (variable->mType != AnalyserInternalVariable::Type::CONSTANT)
-                    && (variable->mType != AnalyserInternalVariable::Type::COMPUTED_TRUE_CONSTANT)
-                    && (variable->mType != AnalyserInternalVariable::Type::COMPUTED_VARIABLE_BASED_CONSTANT)) {
+                    && (((variable->mType != AnalyserInternalVariable::Type::CONSTANT)
+                         && (variable->mType != AnalyserInternalVariable::Type::COMPUTED_TRUE_CONSTANT)
+                         && (variable->mType != AnalyserInternalVariable::Type::COMPUTED_VARIABLE_BASED_CONSTANT))
+                        || isComputedUsingNlaSystem(variable))) {
                     // We are supposed to compute a variable-based constant, yet
                     // we have come across a variable which is not some kind of
                     // a constant. In fact, it was an algebraic variable (with
